@@ -300,8 +300,16 @@ func c06Unpack(pf erpc.ProtoFunc, b []byte, chunk, cseed int) (class string, con
 // for this input is the same on every run, the noise is not.
 func c06UnpackStable(pf erpc.ProtoFunc, b []byte, chunk, cseed int, budget uint64) (class string, consumed int, allocDelta uint64, maxAsk int) {
 	class, consumed, allocDelta, maxAsk = c06Unpack(pf, b, chunk, cseed)
-	for i := 0; i < 4 && allocDelta > budget; i++ {
+	// MemStats.TotalAlloc is process-wide: goroutines of earlier live-session cases that are still
+	// winding down (and, on a loaded machine, the runtime itself) allocate behind the measurement.
+	// A per-message allocation repeats in every repetition, noise does not: up to 12 repetitions with
+	// growing pauses, the minimum counts (thorough sweep under load, round 3: c06:raw:overalloc with
+	// 113 KB "allocated" for an 89-byte frame was such noise).
+	for i := 0; i < 12 && allocDelta > budget; i++ {
 		runtime.Gosched()
+		if i >= 3 {
+			time.Sleep(time.Duration(i-2) * time.Millisecond)
+		}
 		_, _, a, _ := c06Unpack(pf, b, chunk, cseed)
 		if a < allocDelta {
 			allocDelta = a
